@@ -707,6 +707,13 @@ class C11(ShapesPlan):
 class C12(ShapesPlan):
     prop = "C12"
     fams = "u"
+
+    def jobs(self, tier, seed):
+        j = ShapesPlan.jobs(self, tier, seed)
+        # a union's ==, != and Debug run user code: a panic in there must leave the counts of both allocations alone
+        j += simple_jobs("dbg", ["faults", "seed=%d" % seed, "part=cmp", "only=3"], ("C12",))
+        j += simple_jobs("rel", ["faults", "seed=%d" % seed, "part=cmp", "only=3"], ("C12",))
+        return j
     rule = ("all 13x13 ordered pairs of sized shapes {u8,u16,[u8;3],u64,[u8;9],(u64,u8),[u8;33],A16,A32,A64,(),ZA16,ZD} x both constructors x seeded 6-step scripts of "
             "clone/drop/borrow.clone_arc on the union interleaved with plain-Arc operations on the same allocations; variant accessors, payload address, counts on the right allocation, "
             "right destructor and layout at the last release through the union (shadow allocator), one-word size + niche, different variants never equal; "
